@@ -414,7 +414,7 @@ def parse(exprs):
     return [sympy.sympify(e, locals=loc) for e in exprs]
 
 
-def run_case(case, cs=None):
+def run_case(case, cs=None, pick=None):
     """Returns (ok, detail).  The predicate is the property text instantiated at the case.  `cs`: an existing
     CoordinateSystem object to build the field on (history stream); default a fresh one."""
     A = impl()[0]
@@ -422,7 +422,7 @@ def run_case(case, cs=None):
     kind = case["kind"]
     F = parse(case["field"])
     path = case.get("path", "lambda")
-    fld = lam_field(cs, F, path)
+    fld = pick(lambda: lam_field(cs, F, path)) if pick is not None else lam_field(cs, F, path)
     detail = {}
     skipped = []
     real_integrate = A.integrate
@@ -758,9 +758,23 @@ def history_sequence(rng, n):
 def run_history(seq):
     """Returns None if every step agrees, else (index, detail)."""
     cs = cart_cs()      # ONE coordinate-system object for the whole sequence
+    dead_ids, last = set(), []
+
+    def pick(mk):
+        """build the step's field object so that it REUSES the address of a field object dropped earlier, whenever the
+        allocator offers one (objects built on the way are kept alive until the choice is made)"""
+        keep = []
+        for _ in range(300):
+            o = mk()
+            if id(o) in dead_ids:
+                break
+            keep.append(o)
+        last[:] = [id(o)]
+        return o
     for i, c in enumerate(seq):
         try:
-            okc, detail = run_case(c, cs)
+            okc, detail = run_case(c, cs, pick)
+            dead_ids.update(last)
         except Exception as e:  # pylint: disable=broad-except
             okc, detail = False, {"exception": f"{type(e).__name__}: {e}"}
         if not okc:
